@@ -22,7 +22,7 @@ func graphSweep(c *Ctx, maxN int, thorough bool, emit func(g *gspec)) {
 	out := func(g *gspec) {
 		// shard on the specification itself, before paying for the build
 		hh := fnv.New32a()
-		fmt.Fprint(hh, g.N, g.Edges, g.Place, g.Shape, g.Names, g.FragEsc, g.Entry, g.Chain, g.EntrySpell, g.IDs)
+		fmt.Fprint(hh, g.N, g.Edges, g.Place, g.Shape, g.Names, g.FragEsc, g.Entry, g.Chain, g.EntrySpell, g.IDs, g.Site)
 		if c.N > 1 && int(hh.Sum32()%uint32(c.N)) != c.Shard {
 			return
 		}
@@ -72,6 +72,18 @@ func graphSweep(c *Ctx, maxN int, thorough bool, emit func(g *gspec)) {
 				}
 			}
 			place(0, base.clone())
+			// A'. the same universe served by a remote site (root on http://h, with a host that differs by its port only)
+			if n <= 2 || thorough {
+				savedPl := pl
+				pl = []int{0, 1, 2, 3, 4, 8, 10}
+				if n >= 3 {
+					pl = []int{0, 1, 3, 10}
+				}
+				remote := base.clone()
+				remote.Site = 1
+				place(0, remote)
+				pl = savedPl
+			}
 			if n >= 3 && !thorough {
 				continue
 			}
